@@ -613,6 +613,10 @@ func (m *marsh) toNative(v value, T types.Type, rt reflect.Type) (reflect.Value,
 }
 
 // bridgeFunc wraps an interpreted function as a native func value.
+// bridgeSymbolic: a callback handed to native code produced a value that cannot cross the boundary
+// (a symbolic scalar). The caller retries by interpreting the callee where that is possible.
+type bridgeSymbolic struct{ why string }
+
 func (in *interp) bridgeFunc(fn value, rt reflect.Type) (reflect.Value, error) {
 	var sig *types.Signature
 	switch f := fn.(type) {
@@ -634,7 +638,7 @@ func (in *interp) bridgeFunc(fn value, rt reflect.Type) (reflect.Value, error) {
 		case 1:
 			o, err := m.toNative(res, sig.Results().At(0).Type(), rt.Out(0))
 			if err != nil {
-				panic(unsupported("bridge result: " + err.Error()))
+				panic(bridgeSymbolic{err.Error()})
 			}
 			outs[0] = o
 		default:
@@ -642,7 +646,7 @@ func (in *interp) bridgeFunc(fn value, rt reflect.Type) (reflect.Value, error) {
 			for i := range outs {
 				o, err := m.toNative(tp[i], sig.Results().At(i).Type(), rt.Out(i))
 				if err != nil {
-					panic(unsupported("bridge result: " + err.Error()))
+					panic(bridgeSymbolic{err.Error()})
 				}
 				outs[i] = o
 			}
